@@ -104,6 +104,10 @@ func placeExec(c *Ctx, op string) {
 		parent := filepath.Join(base, fmt.Sprintf("area%d", ndst))
 		os.MkdirAll(parent, 0755)
 		d := filepath.Join(parent, "dst")
+		if ndst%3 == 2 && packPath == src { // the destination is named through a symlinked directory (/var/run/… on most systems); directory wares only: a plain-file ware is refused there by the copy placer (observation in DESIGN.md)
+			os.Symlink(fmt.Sprintf("area%d", ndst), parent+"-link")
+			d = filepath.Join(parent+"-link", "dst")
+		}
 		switch pre {
 		case "junk":
 			os.MkdirAll(filepath.Join(d, "oldsub"), 0755)
@@ -478,15 +482,77 @@ func firstDiff(a, b string) string {
 	return fmt.Sprintf("%d lines -> %d lines", len(al), len(bl))
 }
 
+// placeSpecialRoot: a shelf whose root is a single special node (what a ware whose "." entry is a fifo or a device
+// unpacks to) placed writable by the mount placer; chmod / chown / utimes through the placement; the shelf node must keep
+// its attributes. Recipe: "place-special <p|c>".
+func placeSpecialRoot(c *Ctx, op string) {
+	kind := strings.Fields(op)[1]
+	caseCounter++
+	base := filepath.Join(c.Work, fmt.Sprintf("psr%d", caseCounter))
+	defer rmrf(base)
+	os.MkdirAll(filepath.Join(base, "area"), 0755)
+	os.Setenv("RIO_BASE", filepath.Join(base, "riobase"))
+	shelf, dst := filepath.Join(base, "shelfnode"), filepath.Join(base, "area", "dst")
+	var e error
+	if kind == "p" {
+		e = syscall.Mkfifo(shelf, 0640)
+	} else {
+		e = syscall.Mknod(shelf, syscall.S_IFCHR|0640, 1<<8|3)
+	}
+	if e != nil {
+		c.EmitR(op, "skip", "skip")
+		return
+	}
+	os.Lchown(shelf, 3, 4)
+	syscall.Chmod(shelf, 0640)
+	os.Chtimes(shelf, time.Unix(1e9, 0), time.Unix(1e9, 0))
+	ident := func() string {
+		var st unix.Stat_t
+		if unix.Lstat(shelf, &st) != nil {
+			return "gone"
+		}
+		return fmt.Sprintf("mode=%o uid=%d gid=%d mtime=%d", st.Mode, st.Uid, st.Gid, st.Mtim.Sec)
+	}
+	before := ident()
+	c.EmitR(op, "skip", "skip")
+	pfn, err := placer.GetMountPlacer()
+	if err != nil {
+		return
+	}
+	jan, err := pfn(fs.MustAbsolutePath(shelf), fs.MustAbsolutePath(dst), true)
+	if err != nil {
+		c.H("place-special:" + kind + ":refused")
+		return
+	}
+	syscall.Chmod(dst, 0777)
+	os.Lchown(dst, 7, 7)
+	os.Chtimes(dst, time.Unix(5, 0), time.Unix(5, 0))
+	if after := ident(); after != before {
+		c.PropFail("shelf-changed", fmt.Sprintf("a shelf whose root is a %s node was placed writable (mount); chmod / chown / utimes through the placement changed the shelf node: %s -> %s", map[string]string{"p": "fifo", "c": "character device"}[kind], before, after), op)
+	}
+	if jan != nil {
+		jan.Teardown()
+	}
+	for i := 0; i < 3 && mounted(dst); i++ {
+		syscall.Unmount(dst, 0)
+	}
+	c.H("place-special:" + kind)
+	c.Distinct(op)
+}
+
 func placeEngine(c *Ctx) {
 	if ls := replayLines(); ls != nil {
 		for _, op := range ls {
 			if strings.HasPrefix(op, "place ") {
 				placeExec(c, op)
+			} else if strings.HasPrefix(op, "place-special ") {
+				placeSpecialRoot(c, op)
 			}
 		}
 		return
 	}
+	placeSpecialRoot(c, "place-special p")
+	placeSpecialRoot(c, "place-special c")
 	n, maxOps := 14, 10
 	if c.Tier == "thorough" {
 		n, maxOps = 200, 36
